@@ -163,7 +163,8 @@ impl AimdController {
     /// Record a failure - decreases the limit multiplicatively.
     pub fn record_failure(&self) {
         let current = self.limit.load(Ordering::Relaxed);
-        let decreased = (current as f64 * self.config.decrease_factor) as usize;
+        // usize -> f64 rounds for values above 2^53: a decrease must never exceed the current limit
+        let decreased = ((current as f64 * self.config.decrease_factor) as usize).min(current);
         let new_limit = decreased.max(self.config.min_limit);
         self.limit.store(new_limit, Ordering::Relaxed);
     }
